@@ -357,7 +357,9 @@ impl<'a> Interp<'a> {
         match items.len() {
             0 => return Err(vec![leaf(LeafKind::TooFew, Where::Nowhere, "")]),
             1 => {}
-            _ => return Err(vec![leaf(LeafKind::TooMany, Where::Nowhere, "")]),
+            // the first surplus item is the one at fault (C03: the most specific span, never none when
+            // there are tokens to point at)
+            _ => return Err(vec![leaf(LeafKind::TooMany, Where::Item(items[1].id), "")]),
         }
         let it = &items[0];
         // everything found from here on concerns the one nested item: that item is the offending
